@@ -376,6 +376,11 @@ fn blanks(input: Span) -> IResult<Span, ()> {
     V("seed-C09-r2-m1-loop-var-clobber", [("@patch", "seeded/C09-r2-m1/patch.diff")], {"C09": "SK-SCOPE"}),
     V("seed-C09-r2-m2-renumber-before-trim", [("@patch", "seeded/C09-r2-m2/patch.diff")], {"C09": "CHAIN:dfa::do_minimize"}),
     V("seed-C10-r2-m2-no-truncate", [("@patch", "seeded/C10-r2-m2/patch.diff")], {"C10": "OUTFILE", "C06": "OUTFILE"}),
+    V("seed-C11-r2-m2-fallback-map-filters-plain-defs", [("@patch", "seeded/C11-r2-m2/patch.diff")], {"C11": "SKIPS:"}),
+    V("seed-C11-r2-m3-shadowed-command-set", [("@patch", "seeded/C11-r2-m3/patch.diff")], {"C11": "FLAGS:bash:one-command-id-set"}),
+    V("seed-C12-r2-m1-empty-level-tables-skipped", [("@patch", "seeded/C12-r2-m1/patch.diff")], {"C12": "SKIPS:bash::write_completion_tables", "C04": "SKIPS:bash::write_completion_tables"}),
+    V("seed-C17-r2-m1-empty-command-table-not-declared", [("@patch", "seeded/C17-r2-m1/patch.diff")], {"C17": "SKIPS:bash::write_match_transitions"}),
+    V("seed-C10-r2-m1-type-annotation-no-c02-alarm", [("@patch", "seeded/C10-r2-m1/patch.diff")], {"C10": "D:ahash:features", "C02": None}),
     # ---------------- C10
     V("c10-std-hashset-in-dfa", [("src/dfa.rs", "use hashbrown::{HashMap, HashSet};", "use hashbrown::HashMap;\nuse std::collections::HashSet;")], {"C10": "HASHORD:dfa::dfa_from_regex"}),
     V("c10-env-var", [("src/lib.rs", '    let version = env!("COMPLGEN_VERSION");', '    let version = std::env::var("COMPLGEN_VERSION").unwrap_or_default();')], {"C10": "AMBIENT:signature"}),
